@@ -102,3 +102,52 @@ Proof. intros Hg Hn. destruct (reachable_inv f gid gpl hs Hg Hn) as [tip HI]. ex
 
 Corollary crash_state_passes_oracle f s tip h k : Inv s tip -> s_id h <> 0%N -> struct_validb (crash_state f s h k) = true.
 Proof. intros HI Hz. destruct (crash_inv f s tip h k HI Hz) as [tip' HI']. exact (inv_struct_validb _ tip' HI'). Qed.
+
+(* ---- conversely: whatever the oracle accepts has exactly one longest-chain header at every height from 0 to the
+   greatest longest-chain height, none above, and every longest-chain header above height 0 has a longest-chain
+   parent one below - the statement's "structurally valid", read off the raw table ---- *)
+Lemma heights_up_to_all n h : 0 <= h <= Z.of_nat n -> In h (heights_up_to n).
+Proof.
+  induction n as [|n IH]; cbn [heights_up_to]; intros Hh.
+  - left. lia.
+  - destruct (Z.eq_dec h (Z.of_nat (S n))) as [->|Hne]; [left; reflexivity|]. right. apply IH. lia.
+Qed.
+
+Lemma filter_length_one {A} (p : A -> bool) (l : list A) : length (filter p l) = 1%nat ->
+  exists x, In x l /\ p x = true /\ forall y, In y l -> p y = true -> y = x.
+Proof.
+  intros H. destruct (filter p l) as [|x [|z r]] eqn:E; try discriminate.
+  assert (Hx: In x (filter p l)) by (rewrite E; left; reflexivity). apply filter_In in Hx. destruct Hx as [Hxl Hpx].
+  exists x. split; [exact Hxl|]. split; [exact Hpx|].
+  intros y Hy Hpy. assert (Hyf: In y (filter p l)) by (apply filter_In; auto). rewrite E in Hyf.
+  destruct Hyf as [<-|[]]. reflexivity.
+Qed.
+
+Theorem struct_validb_sound s : struct_validb s = true ->
+  0 <= maxLh s /\
+  (forall h, 0 <= h <= maxLh s ->
+     exists x, In x s /\ st x = Longest /\ height x = h /\
+               forall y, In y s -> st y = Longest -> height y = h -> y = x) /\
+  (forall r, In r s -> st r = Longest -> height r <= maxLh s) /\
+  (forall r, In r s -> st r = Longest -> height r <> 0 ->
+     exists q, In q s /\ st q = Longest /\ id q = prev r /\ height q + 1 = height r).
+Proof.
+  unfold struct_validb, one_L_per_height, L_parent_linked. intros H.
+  apply andb_prop in H. destruct H as [H1 H2]. apply andb_prop in H1. destruct H1 as [H1 _].
+  apply andb_prop in H1. destruct H1 as [H0 Hall]. apply Z.leb_le in H0.
+  split; [exact H0|]. split; [|split].
+  - intros h Hh. rewrite forallb_forall in Hall.
+    assert (Hin: In h (heights_up_to (Z.to_nat (maxLh s)))) by (apply heights_up_to_all; rewrite Z2Nat.id by exact H0; exact Hh).
+    specialize (Hall h Hin). apply Nat.eqb_eq in Hall. unfold count_L_at in Hall.
+    destruct (filter_length_one _ s Hall) as (x & Hx & Hpx & Hu).
+    apply andb_prop in Hpx. destruct Hpx as [Hx1 Hx2]. apply is_L_iff_st in Hx1. apply Z.eqb_eq in Hx2.
+    exists x. repeat split; auto. intros y Hy HyL Hyh. apply Hu; [exact Hy|].
+    apply andb_true_intro. split; [apply is_L_iff_st; exact HyL| apply Z.eqb_eq; exact Hyh].
+  - intros r Hr HL. apply (maxLh_ge s r Hr HL).
+  - intros r Hr HL Hnz. rewrite forallb_forall in H2. specialize (H2 r Hr).
+    apply is_L_iff_st in HL. rewrite HL in H2. cbn [negb orb] in H2.
+    destruct (Z.eqb_spec (height r) 0) as [E|_]; [contradiction|]. cbn [orb] in H2.
+    apply existsb_exists in H2. destruct H2 as (q & Hq & Hpq).
+    apply andb_prop in Hpq. destruct Hpq as [Hpq Hh]. apply andb_prop in Hpq. destruct Hpq as [HqL Hid].
+    exists q. split; [exact Hq|]. split; [apply is_L_iff_st; exact HqL|]. split; [apply N.eqb_eq; exact Hid| apply Z.eqb_eq; exact Hh].
+Qed.
